@@ -732,6 +732,10 @@ PROP_OPS = {
 }
 
 
+OWN_R2 = {"weighted_sum_axis", "weighted_mean_axis", "weighted_var_axis", "weighted_std_axis", "sym_sq_l2_dist", "sym_l1_dist", "sym_linf_dist", "pearson_invariance"}
+PROP_OPS["C20"] = set(JUDGES.keys())
+
+
 def summarize_record(rec):
     out = {k: rec[k] for k in rec if k not in ("x", "w", "a", "b", "p", "q", "x2")}
     for k in ("x", "w", "a", "b", "p", "q", "x2"):
@@ -772,6 +776,16 @@ def judge_range(args):
             s = stats.setdefault(op, [0, 0, 0, 0.0])   # ok, skip, bad, max ratio
             try:
                 st, info = JUDGES[op](rec)
+                if st != BAD and "r2" in rec and op not in OWN_R2:
+                    # (canonical, variant) pair of the representation differential: the variant result is
+                    # judged against the same exact value with the same bound
+                    rec2 = dict(rec)
+                    rec2["r"] = rec["r2"]
+                    st2, info2 = JUDGES[op](rec2)
+                    if st2 == BAD:
+                        st, info = BAD, "variant representation: " + str(info2)
+                    elif st == OK and st2 == OK:
+                        info = max(info, info2)
             except Exception as e:   # an oracle failure is not a verdict on the code
                 stats.setdefault("_oracle_error", [0, 0, 0, 0.0])[2] += 1
                 if len(viol) < 5:
